@@ -126,6 +126,9 @@ type DataPlan struct {
 	// default the backend behaves like io.ReadAll-based backends do and
 	// returns the reader's (non-EOF) error.
 	IgnoreReadErr bool
+	// ReadOnAfterTimeout: a backend that treats a read timeout as temporary: it pushes
+	// the connection\'s read deadline forward and goes on reading (at most three times).
+	ReadOnAfterTimeout bool
 	// ContentVerdict: the verdict is a function of the message actually read:
 	// a message containing "verdict:E-<k>;" is rejected with SMTPError 554
 	// "E-<k>", anything else is accepted (unless the reader failed).
@@ -206,6 +209,7 @@ type BEvent struct {
 	StatusSet   []string
 	termErr     error
 	sc          *SimConn // server endpoint of the connection (nil if unknown)
+	readOns     int      // times the backend read on after a timeout
 }
 
 // SimBackend is the plan-driven, recording backend.
@@ -513,6 +517,13 @@ func (ev *BEvent) consume(r io.Reader, p *DataPlan) {
 			}
 		}
 		ev.Read = append(ev.Read, buf[:n]...)
+		if err != nil && p.ReadOnAfterTimeout && ev.readOns < 3 && ev.sc != nil {
+			if ne, ok := err.(net.Error); ok && ne.Timeout() {
+				ev.readOns++
+				ev.sc.SetReadDeadline(time.Now().Add(10 * time.Minute))
+				continue
+			}
+		}
 		if err != nil {
 			ev.Terminal = err.Error()
 			if err == io.EOF {
